@@ -379,6 +379,25 @@ pub fn gen(seed: u64, tier: &str) -> Vec<Value> {
             "req":{"meta":[],"msgs": if req_big { big.clone() } else { vec![bytes_json(&[1])] }},
             "script":{"init_meta":[],"msgs": if shape == "cstream" { vec![bytes_json(&[2])] } else { big.clone() },"end": if shape == "cstream" { json!({"ok":true}) } else { end },"fail_before":false,"no_compress":false}}));
     }
+    // status grid: every error code x {empty, non-empty} message x {no, some} details x {no, some} metadata x k in {0, 1}
+    // messages before the status x {status in trailers, status before the stream}, on every shape (the bare statuses -
+    // no message, no details, no metadata - are the ones a classification shortcut would swallow)
+    for shape in ["unary", "cstream", "sstream", "bidi"] {
+        let single = shape == "unary" || shape == "cstream";
+        for code in 1..17 { for (mi, msg) in ["", "boom"].iter().enumerate() { for dn in [0usize, 2] { for with_meta in [false, true] { for k in [0usize, 1] { for fail_before in [false, true] {
+            if single && (k == 0 || fail_before) { continue; }
+            if tier != "thorough" && !(mi == 0 || dn == 0) && with_meta { continue; }
+            let h2 = (code + k + dn) % 4 == 0;
+            let msgs: Vec<Value> = (0..k).map(|q| bytes_json(&[q as u8, 7])).collect();
+            let meta = if with_meta { json!([{"n":"x-why","bin":false,"v":[119]}]) } else { json!([]) };
+            let end = json!({"ok":false,"code":code,"msg":str_json(msg),"details":bytes_json(&vec![9u8; dn]),"meta":meta});
+            out.push(json!({"mode":"client","class":"status_grid","transport": if h2 {"h2"} else {"inproc"},
+                "shim": if h2 { json!({"cap":65536,"rq":64,"wq":9,"pend":0}) } else { json!({"cap":0,"rq":0,"wq":0,"pend":0}) },"shape":shape,
+                "server":{"send":[],"accept":[],"max_dec":-1,"max_enc":-1},"client":{"send":"","accept":[],"max_dec":-1,"max_enc":-1},
+                "req":{"meta":[],"msgs": if shape == "unary" || shape == "sstream" { vec![bytes_json(&[1])] } else { vec![bytes_json(&[1]), bytes_json(&[2])] }},
+                "script":{"init_meta":[],"msgs":msgs,"end":end,"fail_before":fail_before,"no_compress":false}}));
+        } } } } } }
+    }
     for i in 0..n {
         let shape = ["unary", "cstream", "sstream", "bidi"][i % 4];
         let h2 = i % 3 == 2;
